@@ -11,6 +11,8 @@ of Simulation.save_results regenerated from the source)
    format, group_sites, measure_initial, save_every_x_seconds, save_psi / save_resume_data), with psi.grouped and the lengths of psi
    and model observed after every group_sites_for_algorithm / group_split and compared with Model/ResumeProto.v g_enter / g_split
    (check_group); the grouping guard also called directly on pre-grouped states (stream group-guard)
+ + resume equivalence over the state of the DMRG engine besides psi and the environments (stream real-resume-dmrg, oracle only): mixer
+   (active / just deactivated / deactivated at the checkpoint) and convergence history (min_sweeps = sweeps of the last checkpoint)
  + oracles written from the property text (a loadable file of the last completed checkpoint exists after
    every crash; resumed runs finish with the results of the plain run; none lost, none duplicated).
 """
@@ -175,7 +177,7 @@ def group_stack(before):
 
 def group_literal(loaded, gs, stack, enter, split):
     """Coq literal of Model/ResumeProto.v check_group for one observed group_sites_for_algorithm (+ group_split)."""
-    return coq_lit((bool(loaded), Nat(gs), [Nat(x) for x in stack], (Nat(enter['L_psi']), Nat(enter['L_model'])),
+    return coq_lit((bool(loaded), Nat(gs), [Nat(x) for x in stack] or CoqRaw('(@nil nat)'), (Nat(enter['L_psi']), Nat(enter['L_model'])),
                     (Nat(enter['after']), Nat(enter['L_psi_after']), Nat(enter['L_model_after'])),
                     None if split is None else Some(Nat(split['after']))))
 
